@@ -57,6 +57,7 @@ type Case struct {
 	WD        string // working directory: "", "." or a real directory path
 	ChangeDir bool   `json:",omitempty"` // construct with New(…, "") and ChangeDir(WD)
 	Modes     bool   `json:",omitempty"` // attach NodeProperties.UnixMode to files and dirs
+	Raw       bool   `json:",omitempty"` // never generated: run fstest on the bare view even if a known finding is listed (used by that finding's replay)
 }
 
 func hasLinks(n *lib.Node) bool {
@@ -112,7 +113,37 @@ func gen(t *rapid.T) Case {
 				links[0].Target = links[1].Name
 			}
 		}
+		// valid targets on purpose: a sibling file/dir, something inside a sibling dir, or via "..".
+		for _, l := range links[len(links)/2:] {
+			var sibs []string
+			for _, c := range d.Children {
+				if c != l {
+					sibs = append(sibs, c.Name)
+					if c.Dir {
+						for _, cc := range c.Children {
+							sibs = append(sibs, c.Name+"/"+cc.Name, c.Name+"/../"+l.Name)
+						}
+					}
+				}
+			}
+			if len(sibs) > 0 && rapid.IntRange(0, 2).Draw(t, "valid") > 0 {
+				l.Target = rapid.SampledFrom(sibs).Draw(t, "sibling")
+			}
+		}
 	}
+	// links that climb: point some links of non-root directories at an entry of their parent
+	var climb func(parent, d *lib.Node)
+	climb = func(parent, d *lib.Node) {
+		for _, c := range d.Children {
+			if c.Dir {
+				climb(d, c)
+			}
+			if c.Link && parent != nil && rapid.IntRange(0, 3).Draw(t, "climb") == 0 {
+				c.Target = "../" + rapid.SampledFrom(parent.Children).Draw(t, "uncle").Name
+			}
+		}
+	}
+	climb(nil, root)
 	c := Case{Root: root, Modes: rapid.Bool().Draw(t, "modes")}
 	var dirs []string
 	collect(root, "", func(n *lib.Node, p string) {
@@ -538,7 +569,7 @@ func fstestCheck(c Case) *verdict {
 		}
 	})
 	var tested iofs.FS = fsys
-	if lib.Known("C29", "fstest-invalid-path-opened") || os.Getenv("VERIF_C29_VALIDATE") != "" {
+	if !c.Raw && (lib.Known("C29", "fstest-invalid-path-opened") || os.Getenv("VERIF_C29_VALIDATE") != "") {
 		// known finding: Open/Stat accept names that are not fs.ValidPath. The wrapper supplies the missing
 		// validation so that the rest of the conformance suite is still exercised.
 		tested = validating{fsys}
@@ -810,5 +841,5 @@ func run(c Case, o *lib.Obs) error {
 }
 
 func TestC29(t *testing.T) {
-	lib.Check(t, spec, lib.Scale(3000, 200000), gen, run)
+	lib.Check(t, spec, lib.Scale(6000, 200000), gen, run)
 }
